@@ -5,6 +5,9 @@ TIE = "hand-written Lean model tied to the Go code by the correspondence run (ha
 
 NOT_CLAIMED = {}
 
+# commits in /repo that add instrumentation guarded by the build tag `verif`
+HOOK_COMMITS = ["e7602bd"]
+
 PROPS = {
     "C20": {
         "level_text": "FULL for the connection code: unbounded theorems (window, forward/backward walks visit every element once in order, "
@@ -372,5 +375,36 @@ PROPS = {
                          "and api/http/git_file_upload_handler.go", "extractor's read-only callee allowlist (extract/resolvers.go)"],
         "assumptions": ["callees on the extractor's read-only allowlist do not change the repository (validated from outside by the run)"],
         "gen_facts": ["Gen.Resolvers.programs = call sequence of each mutation resolver and the upload handler; schemaMutations = fields of type Mutation"],
+    },
+    "C19": {
+        "level_text": "PARTIAL (the operating system is outside the model). Proved for any number of processes: every order of opens, closes "
+                      "and kills in which opens do not overlap leaves at most one holder and the lock file names it (mutex); an open while "
+                      "a live process holds is refused, names it and changes nothing (refuse_while_held, never_remove_live); a dead "
+                      "holder's lock does not stop the next open (stale_recovered); closing releases (close_releases). At the level of file "
+                      "operations: with the exclusive creation found in the source (gen_lock_exclusive) every interleaving of opening "
+                      "processes keeps one holder as long as nobody dies (mutex_excl_interleaved); the remaining overlapping-open schedule "
+                      "after a dead holder is a kernel-checked counterexample (race_stale) replayed on real processes and listed as a known "
+                      "finding. Command layer: every cobra command found in the source releases the lock in every fate "
+                      "(gen_commands_release, command_releases). Real git-bug processes are driven through all of this.",
+        "level_note": "Trusted: Lean kernel, extractor, harness. Outside the model: pid reuse, signal delivery, file-system atomicity of "
+                      "O_EXCL and unlink. Fixed in /repo: loaders left the lock behind when they failed after taking it; the lock file "
+                      "was created non-exclusively. Known: two processes that both find the lock of a dead holder (source TODO).",
+        "required_theorems": ["mutex", "refuse_while_held", "never_remove_live", "stale_recovered", "free_acquired", "close_releases",
+                              "mutex_excl_interleaved", "race_create_pinned", "race_stale", "command_releases", "pinned_leaves_lock",
+                              "gen_commands_release", "gen_commands_release_all", "gen_lock_exclusive"],
+        "slices": ["C19"],
+        "needs_gitbug": True,
+        "timeout": {"quick": 2400, "thorough": 7200},
+        "rule": "real git-bug processes on copies of a go-git repository: random orders of open (a command that takes the lock and waits on "
+                "its standard input), clean end, SIGTERM and SIGKILL of up to 2 (quick) / 3 (thorough) live processes, compared event by "
+                "event with the model; a holder killed at a random moment of its life, then the next command; every command found by "
+                "crawling --help, in failing configurations (no identity, unknown id, bad flag; thorough: also a valid id), lock file "
+                "inspected after exit (a command still running after 4 s gets SIGTERM); the two overlapping-open schedules of the model "
+                "replayed through the verif yield points; non-trivial/distinct = distinct schedules / command lines",
+        "trusted_base": [KERNEL, TIE, "model: GitBugModel.LockFile (step, openAtomic, runEvs, lockLeftAtExit)",
+                         "operating system: process ids are not reused within a run; SIGKILL cannot be handled; O_EXCL creation is atomic"],
+        "assumptions": ["opens do not overlap (mutex) or nobody dies while opens overlap (mutex_excl_interleaved); the remaining case is the known finding"],
+        "gen_facts": ["Gen.Commands.commands = every cobra.Command literal (loader, CloseBackend wrapper, closes by hand); loaderFailures = failure "
+                      "branches of the loaders and whether they close the backend; lockExclusive = RepoCache.lock creates the file with O_EXCL"],
     },
 }
